@@ -172,6 +172,7 @@ func idsOf(res []comet.MetadataResult) []uint32 {
 }
 
 func runMetaHistory(r *rand.Rand, nops int, allowBad, allowReadd bool, t *Trace) *Case {
+	notLaw := !allowReadd // the Not() law belongs to C04 only
 	idx := comet.NewRoaringMetadataIndex()
 	var ops []func(c *Case)
 	live := []uint32{}
@@ -183,7 +184,9 @@ func runMetaHistory(r *rand.Rand, nops int, allowBad, allowReadd bool, t *Trace)
 		case x < 35:
 			id := nextID
 			if allowReadd && len(gone) > 0 && r.Intn(3) == 0 {
-				id = gone[r.Intn(len(gone))]
+				gi := r.Intn(len(gone))
+				id = gone[gi]
+				gone = append(gone[:gi], gone[gi+1:]...) // live again: no second add without a removal
 				t.Stat("meta.add_reuse")
 			} else {
 				nextID++
@@ -207,6 +210,7 @@ func runMetaHistory(r *rand.Rand, nops int, allowBad, allowReadd bool, t *Trace)
 				live = append(live, id)
 				t.Stat("meta.add_ok")
 			} else {
+				gone = append(gone, id)
 				t.Stat("meta.add_error")
 			}
 		case x < 48:
@@ -222,7 +226,7 @@ func runMetaHistory(r *rand.Rand, nops int, allowBad, allowReadd bool, t *Trace)
 			idx.Remove(*comet.NewMetadataNodeWithID(id, nil))
 			ops = append(ops, func(c *Case) { c.N(2).U(uint64(id)) })
 			t.Stat("meta.remove")
-		case x < 60:
+		case x < 60 && notLaw:
 			f := rndFilter(r)
 			g := comet.Not(f)
 			rf, ef := idx.NewSearch().WithFilters(f).Execute()
